@@ -256,6 +256,93 @@ func runC10(r *vk.Run) {
 			c.Sample("identity", map[string]any{"query": text, "label_sets": len(sets), "records": len(recs), "first_labels": recs[0].Labels})
 		}
 	})
+	// Identical records are one series. Groups of records that are identical in labels and line (only
+	// the timestamp differs) go through a parser stage that adds many labels (36 fields) or labels
+	// whose names collide once sanitised (http.status / http_status); whatever names the parser gives
+	// them, identical records have identical label sets, so count_over_time must report exactly one
+	// series per group with the group's size, every time.
+	r.Phase("identical", r.N(150, 6000), func(c *vk.Case) {
+		rng := c.Rng
+		ngroups := rng.Range(1, 4)
+		var recs []Rec
+		size := map[string]int{}
+		sizeByGrp := map[string]int{}
+		levelCount := map[string]int{}
+		for g := 0; g < ngroups; g++ {
+			var parts []string
+			level := vk.Pick(rng, []string{"info", "warn", "error"})
+			parts = append(parts, "level="+level, fmt.Sprintf("grp=%d", g))
+			switch rng.Intn(3) {
+			case 0: // wide: far more labels than any "sane" cap
+				for f := 0; f < 36; f++ {
+					parts = append(parts, fmt.Sprintf("f%02d=%d", f, (f*7+g)%5))
+				}
+			case 1: // twins under sanitising
+				parts = append(parts, "http.status=200", "http_status=OK", "user-id=42", "user_id=u42", "a.b=1", "a_b=2", "a-b=3")
+			default:
+				parts = append(parts, "x=1", "y=2")
+			}
+			line := strings.Join(parts, " ")
+			if _, dup := size[line]; dup {
+				continue
+			}
+			n := rng.Range(2, 40)
+			size[line] = n
+			sizeByGrp[fmt.Sprint(g)] = n
+			levelCount[level] += n
+			for k := 0; k < n; k++ {
+				recs = append(recs, Rec{TS: metricT0 + 5e8 + int64(len(recs))*1e6, Line: line, Labels: map[string]string{"job": "j"}})
+			}
+		}
+		p := EvalP{Start: metricT0 + 10e9, End: metricT0 + 10e9}
+		for rep := 0; rep < c.R.N(6, 20); rep++ {
+			res, err := evalQuery(&MemQuerier{Recs: recs, ErrAfter: -1}, `count_over_time({job="j"} | logfmt [20s])`, p)
+			c.Eval(1)
+			det := map[string]any{"records": len(recs), "group_sizes": size, "result": res}
+			if err != nil {
+				c.Fail("", "query failed: "+err.Error(), det)
+				return
+			}
+			if len(res.Series) != len(size) {
+				c.Fail("", fmt.Sprintf("%d groups of identical records gave %d series (repetition %d)", len(size), len(res.Series), rep), det)
+				return
+			}
+			seen := map[string]bool{}
+			for _, s := range res.Series {
+				k := labelKey(s.Labels)
+				if seen[k] {
+					c.Fail("", "label set "+k+" reported twice", det)
+					return
+				}
+				seen[k] = true
+				grp := s.Labels["grp"]
+				if want, ok := sizeByGrp[grp]; !ok || len(s.Points) != 1 || s.Points[0].V != float64(want) {
+					c.Fail("", fmt.Sprintf("series of group %q: points %v, expected one point of value %d", grp, s.Points, sizeByGrp[grp]), det)
+					return
+				}
+			}
+			res2, err := evalQuery(&MemQuerier{Recs: recs, ErrAfter: -1}, `sum by (level) (count_over_time({job="j"} | logfmt [20s]))`, p)
+			c.Eval(1)
+			if err != nil {
+				c.Fail("", "query failed: "+err.Error(), det)
+				return
+			}
+			det["result_by_level"] = res2
+			if len(res2.Series) != len(levelCount) {
+				c.Fail("", fmt.Sprintf("sum by (level): %d series for %d distinct levels (repetition %d)", len(res2.Series), len(levelCount), rep), det)
+				return
+			}
+			for _, s := range res2.Series {
+				if want := levelCount[s.Labels["level"]]; len(s.Labels) != 1 || len(s.Points) != 1 || s.Points[0].V != float64(want) {
+					c.Fail("", fmt.Sprintf("sum by (level): series %v = %v, expected {level} = %d", s.Labels, s.Points, want), det)
+					return
+				}
+			}
+			c.Count("identical_group_checks", 1)
+		}
+		c.Nontrivial(fmt.Sprintf("identical|%d", c.Idx))
+	})
+	r.Require("identical_group_checks", 500)
 	r.Require("repetitions", 3000)
 	r.Require("conservation_checks", 1000)
 	r.Require("distinct_nontrivial", 100)
